@@ -593,20 +593,41 @@ package varlink
 //@   assert [args C03 C13] at call(Send)#1 : arg0 == c && arg2 == method && arg3 == boxed(addr_parameters) && arg4 == 0
 //@   assert [out C03 C13] at call(dynamic)#1 : arg1 == outParameters
 
+//@ ghost gDescOut string
+//@ ghost gCallErr iface
+//@ ghost gIVendor string
+//@ ghost gIProduct string
+//@ ghost gIVersion string
+//@ ghost gIURL string
+//@ ghost gIIfaces strs
+
 //@ func (*Connection).GetInterfaceDescription {C13 | safety: C11}
 //@   schema [desc-keys C13] (*Call).replyGetInterfaceDescription:var(out) => (*Connection).GetInterfaceDescription:reply
 //@   schema [desc-req-keys C13] (*Connection).GetInterfaceDescription:request => (*Service).orgvarlinkserviceDispatch:var(in)
 //@   requires [nn] c != nil && c.conn != nil && c.conn.conn != nil && ctx != nil
-//@   modifies gSendErr, gRecvRes, gSendWrites, gm, dlWpast, dlWzero, dlWctx, helper, gDlFail, gCancelled, gCtxErr, gWrCalls, gSends, gSentN, gSentErr
+//@   modifies gDescOut, gCallErr, gSendErr, gRecvRes, gSendWrites, gm, dlWpast, dlWzero, dlWctx, helper, gDlFail, gCancelled, gCtxErr, gWrCalls, gSends, gSentN, gSentErr
 //@   assert [call C13] at call(Call)#1 : arg2 == "org.varlink.service.GetInterfaceDescription" && arg4 == boxed(addr_r) && typeof(arg3) != 0
 //@   assert [ret C13] at return#2 : true
+//@   assert [out-fresh C13] at call(Call)#1 : zeropointee(arg4)
+//@   ghostset at call(Call)#1 : gDescOut = r.Description
+//@   ghostset at call(Call)#1 : gCallErr = res0
+//@   ensures [desc C13] result1 == nil ==> gCallErr == nil && result0 == gDescOut
 //@   ensures [err C13] result1 != nil ==> result0 == ""
 
 //@ func (*Connection).GetInfo {C13 | safety: C11}
 //@   schema [info-keys C13] (*Call).replyGetInfo:var(out) => (*Connection).GetInfo:reply
 //@   requires [nn] c != nil && c.conn != nil && c.conn.conn != nil && ctx != nil
-//@   modifies *vendor, *product, *version, *url, *interfaces, gSendErr, gRecvRes, gSendWrites, gm, dlWpast, dlWzero, dlWctx, helper, gDlFail, gCancelled, gCtxErr, gWrCalls, gSends, gSentN, gSentErr
+//@   modifies *vendor, *product, *version, *url, *interfaces, gIVendor, gIProduct, gIVersion, gIURL, gIIfaces, gCallErr, gSendErr, gRecvRes, gSendWrites, gm, dlWpast, dlWzero, dlWctx, helper, gDlFail, gCancelled, gCtxErr, gWrCalls, gSends, gSentN, gSentErr
 //@   assert [call C13] at call(Call)#1 : arg2 == "org.varlink.service.GetInfo" && arg4 == boxed(addr_r)
+//@   assert [out-fresh C13] at call(Call)#1 : zeropointee(arg4)
+//@   ghostset at call(Call)#1 : gIVendor = r.Vendor
+//@   ghostset at call(Call)#1 : gIProduct = r.Product
+//@   ghostset at call(Call)#1 : gIVersion = r.Version
+//@   ghostset at call(Call)#1 : gIURL = r.URL
+//@   ghostset at call(Call)#1 : gIIfaces = r.Interfaces
+//@   ghostset at call(Call)#1 : gCallErr = res0
+//@   ensures [info C13] result == nil ==> gCallErr == nil && (vendor != nil ==> *vendor == gIVendor) && (product != nil ==> *product == gIProduct) && (version != nil ==> *version == gIVersion) && (url != nil ==> *url == gIURL) && (interfaces != nil ==> *interfaces == gIIfaces)
+//@   ensures [info-err C13] result != nil ==> result == gCallErr
 //@   assert [copy C13] at return#2 : (vendor != nil ==> *vendor == r.Vendor) && (product != nil ==> *product == r.Product) && (version != nil ==> *version == r.Version) && (url != nil ==> *url == r.URL) && (interfaces != nil ==> *interfaces == r.Interfaces)
 
 //@ func (*Connection).Upgrade$1 {C11 C18 | safety: C11}
@@ -683,10 +704,20 @@ package varlink
 //@   modifies gSendErr, gRecvRes, gSendWrites, gm, dlWpast, dlWzero, dlWctx, helper, gDlFail, gCancelled, gCtxErr, gWrCalls, gSends, gSentN, gSentErr
 //@   ensures [self C13] iface == "org.varlink.resolver" ==> result0 == r.address && result1 == nil
 //@   assert [call C13] at call(Call)#1 : arg0 == r.conn && arg2 == "org.varlink.resolver.Resolve" && arg4 == boxed(addr_rep)
+//@   assert [out-fresh C13] at call(Call)#1 : zeropointee(arg4)
 
 //@ func (*Resolver).GetInfo {C13 | safety: C11}
 //@   schema [resolver-info-keys C13] (*Call).replyGetInfo:var(out) => (*Resolver).GetInfo:reply
 //@   requires [nn] r != nil && r.conn != nil && r.conn.conn != nil && r.conn.conn.conn != nil && ctx != nil
-//@   modifies *vendor, *product, *version, *url, *interfaces, gSendErr, gRecvRes, gSendWrites, gm, dlWpast, dlWzero, dlWctx, helper, gDlFail, gCancelled, gCtxErr, gWrCalls, gSends, gSentN, gSentErr
+//@   modifies *vendor, *product, *version, *url, *interfaces, gIVendor, gIProduct, gIVersion, gIURL, gIIfaces, gCallErr, gSendErr, gRecvRes, gSendWrites, gm, dlWpast, dlWzero, dlWctx, helper, gDlFail, gCancelled, gCtxErr, gWrCalls, gSends, gSentN, gSentErr
 //@   assert [call C13] at call(Call)#1 : arg0 == r.conn && arg2 == "org.varlink.resolver.GetInfo" && arg4 == boxed(addr_rep)
+//@   assert [out-fresh C13] at call(Call)#1 : zeropointee(arg4)
+//@   ghostset at call(Call)#1 : gIVendor = rep.Vendor
+//@   ghostset at call(Call)#1 : gIProduct = rep.Product
+//@   ghostset at call(Call)#1 : gIVersion = rep.Version
+//@   ghostset at call(Call)#1 : gIURL = rep.URL
+//@   ghostset at call(Call)#1 : gIIfaces = rep.Interfaces
+//@   ghostset at call(Call)#1 : gCallErr = res0
+//@   ensures [info C13] result == nil ==> gCallErr == nil && (vendor != nil ==> *vendor == gIVendor) && (product != nil ==> *product == gIProduct) && (version != nil ==> *version == gIVersion) && (url != nil ==> *url == gIURL) && (interfaces != nil ==> *interfaces == gIIfaces)
+//@   ensures [info-err C13] result != nil ==> result == gCallErr
 //@   assert [copy C13] at return#2 : (vendor != nil ==> *vendor == rep.Vendor) && (product != nil ==> *product == rep.Product) && (version != nil ==> *version == rep.Version) && (url != nil ==> *url == rep.URL) && (interfaces != nil ==> *interfaces == rep.Interfaces)
